@@ -1103,6 +1103,60 @@ fn is_zero_len(kv: &Kv) -> bool {
 
 // ------------------------------------------------------------------------------------------
 // generator
+/// C01 for a third-party `VolatileMemory`: two separate host pieces presented as one memory whose `get_slice` hands out only
+/// the contiguous part of a range that straddles the internal boundary (fewer bytes than asked — the documentation of
+/// `get_slice` allows it and says the length "MUST NOT be relied on for the correctness of unsafe code").  The provided
+/// typed accessors must then panic or fail; whatever they hand out must lie inside one piece.  Oracle-only probe; the
+/// model of the provided methods over an arbitrary `get_slice` is `C01.typedVia` (`typedVia_within`).
+pub fn third_party_probe(rec: &mut Rec) {
+    use std::sync::atomic::AtomicU64;
+    #[repr(align(64))]
+    struct Backing([u8; 256]);
+    struct TwoPieces { base: *mut u8, a: (usize, usize), b: (usize, usize) }
+    impl VolatileMemory for TwoPieces {
+        type B = ();
+        fn len(&self) -> usize { self.a.1 + self.b.1 }
+        fn get_slice(&self, offset: usize, count: usize) -> vm_memory::volatile_memory::Result<VolatileSlice<()>> {
+            let end = offset.checked_add(count).ok_or(VolatileMemoryError::Overflow { base: offset, offset: count })?;
+            if end > self.len() { return Err(VolatileMemoryError::OutOfBounds { addr: end }); }
+            let (host, avail) = if offset < self.a.1 { (self.a.0 + offset, self.a.1 - offset) } else { (self.b.0 + offset - self.a.1, self.b.1 - (offset - self.a.1)) };
+            Ok(unsafe { VolatileSlice::new(self.base.add(host), count.min(avail)) })
+        }
+    }
+    for (alen, off, shapes) in [(16usize, 8usize, true), (12, 4, true), (24, 16, true), (16, 0, false)] {
+        let mut back = Box::new(Backing([0x5a; 256]));
+        let base = back.0.as_mut_ptr();
+        let m = TwoPieces { base, a: (64, alen), b: (128, 40) };
+        let inside = |p: usize, n: usize| { let o = p - base as usize; (o >= 64 && o + n <= 64 + alen) || (o >= 128 && o + n <= 168) };
+        let mut bad: Vec<String> = vec![];
+        let mut run = |what: &str, f: &mut dyn FnMut() -> Option<(usize, usize)>| {
+            match guarded(|| f()) {
+                None | Some(None) => {}
+                Some(Some((p, n))) => if !inside(p, n) { bad.push(format!("{}: accessor [{}+{}) not inside one piece", what, p - base as usize, n)); }
+            }
+        };
+        // requests that straddle the boundary (`shapes`) or lie in the first piece (control)
+        run("get_ref<u64>", &mut || m.get_ref::<u64>(off + alen - 8 + if shapes { 4 } else { 0 }).ok().map(|r| { r.store(0x1111_1111_1111_1111); (r.ptr_guard().as_ptr() as usize, 8) }));
+        run("get_array_ref<u32>", &mut || m.get_array_ref::<u32>(alen - 4, 3).ok().map(|r| { r.store(2, 0x2222_2222); (r.ptr_guard().as_ptr() as usize, 12) }));
+        run("get_atomic_ref<AtomicU64>", &mut || m.get_atomic_ref::<AtomicU64>(alen - 8 + if shapes { 0 } else { 0 }).ok().map(|r| (r as *const _ as usize, 8)));
+        run("get_atomic_ref<AtomicU64>@straddle", &mut || m.get_atomic_ref::<AtomicU64>(alen).ok().map(|r| (r as *const _ as usize, 8)));
+        run("aligned_as_ref<u64>", &mut || unsafe { m.aligned_as_ref::<u64>(alen - 4) }.ok().map(|r| (r as *const _ as usize, 8)));
+        run("aligned_as_mut<u32x>", &mut || unsafe { m.aligned_as_mut::<u32>(alen - 2) }.ok().map(|r| (r as *const _ as usize, 4)));
+        // nothing outside the two pieces was written
+        for (i, b) in back.0.iter().enumerate() {
+            let in_piece = (64..64 + alen).contains(&i) || (128..168).contains(&i);
+            if !in_piece && *b != 0x5a {
+                bad.push(format!("byte {} of the backing buffer lies outside both pieces and was modified", i));
+                break;
+            }
+        }
+        for b in bad {
+            rec.fail("C01", "third-party-memory/accessor-outside-its-slice", &b);
+        }
+    }
+    rec.note("third_party_probes");
+}
+
 pub fn run<B: Flav>(rec: &mut Rec, rng: &mut Rng, n_ops: usize, with_streams: bool) {
     let mut w = SliceWorld::<B>::empty();
     let mut done = 0;
